@@ -7,7 +7,7 @@ from ..runner import Case, Property
 class C19(Property):
     id = "C19"
     lean_module = "RosuModel.Props.C19Full"   # imports Props/C19Curve.lean (→ Props/C19Lipschitz.lean, Props/C19.lean, Props/C16Surplus.lean) and Props/C19Ieee.lean; namespace Rosu.C19
-    theorem_modules = ['RosuModel.Props.C19Curve', 'RosuModel.Props.C19Ieee', 'RosuModel.Props.C19IeeePos', 'RosuModel.Props.C19IeeeBound', 'RosuModel.Props.C19IeeeErr', 'RosuModel.Props.C19IeeeSearch', 'RosuModel.Props.C19IeeeFinite', ('RosuModel.Lemmas.FloatErrRange32', 'Rosu.FErr'), 'RosuModel.Props.C19IeeeLipschitz', 'RosuModel.Props.C19DecodedLinear', 'RosuModel.Props.C19IeeeFinal', ('RosuModel.Lemmas.FloatErrRangeSqrt', 'Rosu.FErr')]   # files whose top-level theorems are all audited
+    theorem_modules = ['RosuModel.Props.C19Curve', 'RosuModel.Props.C19Ieee', 'RosuModel.Props.C19IeeePos', 'RosuModel.Props.C19IeeeBound', 'RosuModel.Props.C19IeeeErr', 'RosuModel.Props.C19IeeeSearch', 'RosuModel.Props.C19IeeeFinite', ('RosuModel.Lemmas.FloatErrRange32', 'Rosu.FErr'), 'RosuModel.Props.C19IeeeLipschitz', 'RosuModel.Props.C19DecodedLinear', 'RosuModel.Props.C19IeeeFinal', ('RosuModel.Lemmas.FloatErrRangeSqrt', 'Rosu.FErr'), 'RosuModel.Props.C19DecodedLinearLen']   # files whose top-level theorems are all audited
     namespace = "Rosu.C19"
     design_ref = "5.19"
     level_text = (
@@ -36,7 +36,9 @@ class C19(Property):
         "Model tied to the code bit-for-bit "
         "(positions, distances, indices, also for NaN / unsorted lengths).")
     technique = "Lean 4 proof (generic arithmetic, structural) + bit-exact differential correspondence + independent oracle"
-    required_theorems = ["seglen_bounded", "cumLens_finite", "natural_total_finite_float", "linear_curve_position_err_float32", "position_lipschitz_float32_uncond",
+    required_theorems = ["calculateLength_some_shape", "linear_curve_len_shape", "linear_len_length_mismatch", "linear_curve_len_position_err_float32_partial", "linear_curve_len_lenAdjOk",
+                         "linear_curve_len_position_err_float32_of_cutPoint", "lenAdjOk_of_near_segment", "linCps_curve40", "linCps_curve60",
+                         "seglen_bounded", "cumLens_finite", "natural_total_finite_float", "linear_curve_position_err_float32", "position_lipschitz_float32_uncond",
                          "positionAt_lipschitz_float32_uncond", "degSlack_lt",
                          "vertex_chord_sum_float32", "chordBooked_natural", "chordBooked_natural_zero", "idxOfDist_mono_float", "position_anchor_float32", "position_same_bracket_float32",
                          "position_lipschitz_gen_float32", "position_lipschitz_float32", "position_lipschitz_degenerate_float32", "positionAt_lipschitz_float32", "demo_chordBooked",
@@ -61,6 +63,13 @@ class C19(Property):
                          # Props/C19Ieee.lean: the order part of PosLaws for the driver's Float; the search finds an exact hit for IEEE doubles
                          "posLaws_order_float", "bsLoop_hit_ieee", "idxOfDist_hit_ieee", "idxOfDist_hit_float"]
     partial_theorems = {
+        "linear_curve_len_position_err_float32_partial": "Props/C19DecodedLinearLen.lean (sixth session, wave 11): linear curves WITH a requested length (what decoded sliders have). calculateLength_some_shape "
+            "(every arithmetic): the adjusted path keeps natural vertices except possibly the last, which is a natural vertex or the cut point; linear_curve_len_shape: for all-linear finite control points and a "
+            "finite L the curve's lengths are Sorted, start at 0 and are finite, every vertex but possibly the last is a control-point position. FOUND FALSE as first stated: path.length = lengths.length — "
+            "linear_len_length_mismatch: (100,200) L, (107,224), (107,224) with L = 60 gives three vertices and FOUR lengths [0,25,25,25] (the equal-tail branch pushes a length without a point), kernel-evaluated; "
+            "the clause is a disjunction in the shape theorem. linear_curve_len_position_err_float32_partial: position_at(q) within 1/4 px per coordinate of the polyline through the adjusted path. PARTIAL: two "
+            "hypotheses stay — LenAdjOk (the last vertex is finite and Bounded19; lenAdjOk_of_near_segment derives it from the C16 end-point theorems' conclusion, whose own side conditions are not derived from "
+            "the control points) and hlen (fails exactly in the equal-tail case). Kernel-evaluated on L = 40 (cut) and L = 60 (extension)",
         "positionAt_lipschitz_float32_uncond / linear_curve_position_err_float32": "Props/C19IeeeFinal.lean, Lemmas/FloatErrRangeSqrt.lean (sixth session, wave 10): the last two side hypotheses are REMOVED. "
             "sqrt_finite_float (the square root of a finite non-negative double is finite, −0 included), sqrt_le_float, toRat_abs_float, toRat_eps_float, abs_sub_le_eps_toRat (|d0 ⊖ d1| ≤ EPSILON implies "
             "|d0 − d1| ≤ 2^-52(1+2^-52); the factor cannot be dropped: kernel witness EPSILON and −2^-110). (i) seglen_bounded, cumLens_finite, natural_total_finite_float: for finite Bounded19 vertices and at "
